@@ -8,6 +8,72 @@ PROP = "C05"
 LEVEL = "proof"
 
 
+def dying_classes_program(rng):
+    """Classes declared inside functions (each call creates a class that dies with its last instance), with DIFFERENT field
+    orders and counts, all read / written / invoked through the same shared sites, with 0-3 padding allocations in between so
+    that a new class sooner or later takes the address of a dead one.  Expected output by construction."""
+    nf = rng.randint(2, 4)
+    lines = ["fn getf(o) { return o.f; }", "fn setg(o, v) { o.g = v; return o.g; }", "fn callh(o) { return o.h(); }"]
+    facts = []
+    for i in range(nf):
+        names = ["f", "g"] + ["x%d" % j for j in range(rng.randint(0, 2))]
+        rng.shuffle(names)
+        init = " ".join("self.%s = %d;" % (nm, (100 * (i + 1) + 1) if nm == "f" else (100 * (i + 1) + 2 if nm == "g" else 7)) for nm in names)
+        lines.append("fn mk%d() { class L%d { init() { %s } h() { return %d; } } return L%d(); }" % (i, i, init, 100 * (i + 1) + 3, i))
+        facts.append(i)
+    exp = []
+    for r in range(rng.randint(6, 16)):
+        i = rng.choice(facts)
+        for p in range(rng.randint(0, 3)):
+            lines.append("let pad%d_%d = \"p${%d}\";" % (r, p, r * 10 + p))
+        k = rng.randrange(3)
+        if k == 0:
+            lines.append("print(getf(mk%d()));" % i)
+            exp.append(str(100 * (i + 1) + 1))
+        elif k == 1:
+            v = rng.randint(0, 99)
+            lines.append("print(setg(mk%d(), %d));" % (i, v))
+            exp.append(str(v))
+        else:
+            lines.append("print(callh(mk%d()));" % i)
+            exp.append(str(100 * (i + 1) + 3))
+        if rng.random() < 0.5:
+            lines.append("if true { let junk = nil; for gi in %d.times() { junk = [\"g${gi}\", [gi]]; } }" % rng.randint(1, 6))
+    return "\n".join(lines) + "\n", "\n".join(exp) + "\n"
+
+
+def class_churn_search(ctx, nq=400):
+    """classes created and dropped at run time behind shared property / invoke / super sites (the site-history programs
+    of C13, expected output known by construction) under full collections at short intervals: a class, method or field
+    table that some root no longer keeps alive is freed and its address reused (this is how D16 was found)"""
+    import random
+    from . import c13
+    rng = random.Random(ctx.seed * 577 + 5)
+    d = os.path.join(common.VERIF, "work", "c05_churn_%s" % ctx.tier)
+    os.makedirs(d, exist_ok=True)
+    progs = []
+    for k in range(ctx.n(nq, 4000)):
+        src, exp = c13.site_program(rng) if k % 2 else dying_classes_program(rng)
+        f = os.path.join(d, "s%d.lay" % k)
+        open(f, "w").write(src)
+        progs.append((f, src, exp))
+    for mode in ["--gc every:1 --full 1", "--gc every:2 --full 1", "--gc every:3 --full 1", "--gc every:5 --full 1"]:
+        runs = common.run_batch(["%s --steps 400000 %s" % (mode, f) for f, _, _ in progs])
+        for (f, src, exp), r in zip(progs, runs):
+            ctx.count_case((src, mode), nontrivial=True)
+            if r["status"] == "STEPLIMIT":
+                continue
+            if r["status"] != "Ok:0" or r["stdout"] != exp:
+                ctx.cov["impl_vs_spec_failures"] += 1
+                ctx.violation("class_churn", {"kind": "implementation-vs-spec",
+                                              "what": "a program that creates and drops classes behaves differently (or crashes) under full collections at short intervals",
+                                              "mode": mode, "program": src, "expected": exp, "status": r["status"], "stdout": r["stdout"], "stderr": r["stderr"][-600:],
+                                              "run": "harness/target/debug/vharness run %s --steps 400000 <program>" % mode})
+                return False
+        ctx.stream_stat("class_churn_search", programs=len(progs), runs=len(progs))
+    return True
+
+
 def run(ctx):
     proved = ctx.prove("LaytheVerif.Props.C05")
     ok_c, out_c = common.cargo_build()
@@ -39,6 +105,8 @@ def run(ctx):
                 ok = sched_stream.compare_modes(ctx, "search_schedules_nan_boxing", nb, ["--gc every:1", "--gc every:3 --full 1", "--gc every:2 --full 0"],
                                                 steps=ctx.n(150000, 400000), nan_boxing=True)
             if ok:
+                ok = class_churn_search(ctx)
+            if ok:
                 ctx.violation("proof", {"kind": "proof-obligation-failed", "broken": what, "detail": detail}, no_input=True)
             else:
                 # name the broken obligation inside the concrete replay
@@ -62,6 +130,8 @@ def run(ctx):
     nb_files = cf + sched_stream.write_zoo(ctx, ctx.n(120, 2000), "zoo_nb", salt=1) + files[len(cf):len(cf) + ctx.n(40, 1500)]
     if not sched_stream.compare_modes(ctx, "schedules_nan_boxing", nb_files, ["--gc every:1", "--gc every:3 --full 1"] if ctx.quick() else modes,
                                       steps=ctx.n(150000, 400000), nan_boxing=True):
+        return
+    if not class_churn_search(ctx, nq=120):
         return
     ctx.sample({"program": files[len(cf)], "schedules": ["default"] + modes})
     ctx.assumptions += [
